@@ -41,6 +41,44 @@ def add_conflicts(r, sspec, dspec):
     return affected
 
 
+def linked_destination_fault_worlds(sc, tier):
+    """(seed C10-5) the destination file being updated has a second name inside the destination whose own source did not change; the
+    working file through which such a file is replaced cannot be made (its name is taken by a non-empty directory, or is too long):
+    the failure is reported, the exit status is not 0, and the other name -- a file the fault did not affect -- keeps its bytes"""
+    import world
+    viol, n = [], 0
+    for wi in range(3 if tier == "quick" else 9):
+        base = os.path.join(sc.dir, "lf%d" % wi)
+        src, dst = base + "/src", base + "/dst"
+        os.makedirs(src); os.makedirs(dst)
+        fname = "f.dat" if wi % 3 != 2 else "f" * 250
+        old = world.pbytes(8100 + wi, [30, 9000, 300000][wi % 3])
+        with open(dst + "/" + fname, "wb") as fh:
+            fh.write(old)
+        os.utime(dst + "/" + fname, ns=((world.T0 + 100) * 10**9,) * 2)
+        os.link(dst + "/" + fname, dst + "/keep.txt")
+        with open(src + "/keep.txt", "wb") as fh:
+            fh.write(old)
+        os.utime(src + "/keep.txt", ns=((world.T0 + 100) * 10**9,) * 2)
+        with open(src + "/" + fname, "wb") as fh:
+            fh.write(world.pbytes(8200 + wi, len(old) + 7))
+        os.utime(src + "/" + fname, ns=((world.T0 + 900) * 10**9,) * 2)
+        if wi % 3 != 2:
+            os.makedirs(dst + "/" + fname + ".sy.tmp/blocker")
+        keep_sha = world.sha(dst + "/keep.txt")
+        rr = world.run_sy([src, dst, "-q", "-j%d" % [1, 4][wi % 2]], sc)
+        n += 1
+        why = []
+        if world.sha(dst + "/keep.txt") != keep_sha:
+            why.append("keep.txt, whose source did not change and which the fault did not touch, holds other bytes (written through the inode it shares with %s)" % fname[:12])
+        if rr["rc"] == 0 and world.sha(dst + "/" + fname) != world.sha(src + "/" + fname):
+            why.append("exit status 0 although %s was not updated" % fname[:12])
+        if why:
+            viol.append({"world": "linked-destination-fault-%d" % wi, "why": "; ".join(why), "exit": rr["rc"]})
+        shutil.rmtree(base, ignore_errors=True)
+    return viol, n
+
+
 def injected_faults(sc, seed, tier, only=None):
     """the property's own quantifier: one fault (and pairs) at the k-th mutating system call, errno in {EIO, ENOSPC, EACCES, ENOENT}:
     the run under an LD_PRELOAD shim that numbers the mutating libc calls below the scratch root and makes call k fail.
@@ -253,6 +291,9 @@ def run(tier, seed):
             raw["nerr"] = int(kv["nerr"]); raw["refused"] = kv["refused"] == "1"; raw["affected"] = affected
             cases.append(case); obs_l.append(obs); raws.append(raw); metas.append((i, fl))
         inj_viol, inj_stats = injected_faults(sc, seed, tier)
+        lf_viol, lf_n = linked_destination_fault_worlds(sc, tier)
+        inj_viol = lf_viol + inj_viol
+        inj_stats["linked_destination_fault_worlds"] = lf_n
     model = [ew.model_obs(m) for m in vlib.run_model(cases)]
     known = {f["class"]: f for f in vlib.load_known()["findings"] if f["property"] == PID}
     diffs, viol, nontriv, hits = [], [], set(), {}
